@@ -17,7 +17,7 @@ F = CFGF
 
 HOSTILE = [b'plain', b'', b'a"b', b'a\\b', b'a\\', b'\\"', b'a${HOME}b', b'${X}', b'$', b'a{b}c', b'}', b'# not a comment', b'// x', b'/* x */',
            b'*/', b"it's", b'new\nline', b'tab\there', b' lead', b'trail ', b'\x01\x7f\x80\xff', b'a=b', b'a,b', b'(x)', b'a+=b', b'\\n', b'\\x41',
-           b'\\101', b'"', b"'", b'$(x)', b'%s%n', b'\r\n', b'a\\\nb', b'${UNSET:-d}', b'~/x']
+           b'\\101', b'"', b"'", b'$(x)', b'%s%n', b'\r\n', b'a\\\nb', b'${UNSET:-d}', b'~/x', b'usage: ${NAME', b'${', b'a${b', b'$}{', b'x ${HOME', b'{ ${ }']
 
 
 def q(s):
